@@ -17,7 +17,7 @@ def run(ctx):
     from checks import lowerpart
     lowerpart.run_lookaround_part(ctx)
     lrfamily.driver_layer(ctx, "C06")
-    lrfamily.compiled_layer(ctx, "C06")
+    lrfamily.compiled_layer(ctx, "C06", grammars=ctx.vol(60, 400), inputs=ctx.vol(30, 60))
     ctx.coverage.setdefault("trusted_base", []).extend(lrfamily.TRUST_LR)
     ctx.coverage["rule"] = ("grammars from LR-biased templates, mutations and random CFGs x {lane-table, canonical LR(1), LALR}; "
                             "inputs = sampled sentences, single-token mutations, random strings, injected errors, all short strings")
